@@ -31,6 +31,14 @@ claim("C02", "Coq proof (buffer-bound invariant, regenerated array extents, life
       "Proof: the CAB input buffer never holds more than 65535 (salvage) / 38912 (strict) bytes after any accepted sequence of block parts and that plus the Quantum trailer byte fits the array extent regenerated from cab.h; all Huffman table and code-length array extents regenerated from the headers satisfy the builders' needs; the SZDD/LZSS port never uses a released handle or frees twice under any host. Everything else (window indices, CHM chunk parsing, Huffman table construction, KWAJ/OAB paths) is covered by the sanitizer sweep of the real library only - partial, as DESIGN.md section 4/C02 states.",
       NOTE, "4/C02")
 
+claim("C07", "Coq proof (output accounting of the frame loop with an abstract per-frame decoder) + byte-count oracle on every extract call of the sweep",
+      "Proof: for the accounting shared by lzxd/qtmd/mszipd/noned_decompress (flush stored-up bytes, then min(requested, produced) per frame, error if bytes remain) and any sequence of per-frame outcomes: bytes written <= requested, OK => exactly requested, fewer => non-OK; lifted through the skip-then-extract pair. The tie of this abstract loop to the four C loops is by the LZX/Quantum/MSZIP ports' correspondence (C01) and by the oracle that counts bytes accepted by write() against the declared size for every extract call of the sweep (CAB strict/salvage, CHM, OAB).",
+      NOTE, "4/C07")
+
+claim("C10", "Coq proof (host-failure tracking in the monitor semantics, for every host) on the SZDD/LZSS port + L2 correspondence + single-fault sweep of all front ends vs the failure-free run",
+      "Proof: for every host, the SZDD decompress script returns last_error = status, and status OK implies that no callback failed anywhere in the script (open/alloc NULL, read error, short or failed write, seek failure) - so an OK result is the failure-free result; wrong SZDD signatures are refused with MSPACK_ERR_SIGNATURE. Tie: identical callback traces/statuses/outputs of port and C under every single fault. CAB/CHM/KWAJ/OAB: each fired single fault on every corpus scenario is compared op by op with the failure-free run on the C side only (partial).",
+      NOTE, "4/C10")
+
 def main():
     props = [json.loads(l)["id"] for l in open(os.path.join(V, "properties.jsonl"))]
     # only claim what has a check module
